@@ -567,8 +567,6 @@ class Den:
             return self.memo[key]
         r = getattr(self, "op_" + n.op)(n)
         if isinstance(r, LT):
-            for v in r.arr.flat:
-                assert not isinstance(v, np.ndarray), (n.op, n.a)
             if self.dlevel:
                 r.bits = None
             m = 0.0
